@@ -387,6 +387,21 @@ pub fn run(args: &Args) -> Report {
             check_event(&mut rep, &mut rng, &e, false);
             rep.count("large_tag_events");
         }
+        // long runs of 2-, 3- and 4-byte characters at every alignment (a hasher fed in fixed-size pieces must not
+        // cut a character), in content and in a tag string
+        for ch in ["\u{e9}", "\u{20ac}", "\u{1f600}", "\u{10ffff}"] {
+            for lead in 0..4usize {
+                for n in [1_400usize, 2_100, 6_000] {
+                    let mut e = e2.clone();
+                    e.content = format!("{}{}", "a".repeat(lead), ch.repeat(n));
+                    check_event(&mut rep, &mut rng, &e, false);
+                    rep.count("long_multibyte_events");
+                }
+                let mut e = e1.clone();
+                e.tags = vec![vec!["t".into(), format!("{}{}", "a".repeat(lead), ch.repeat(3_000))]];
+                check_event(&mut rep, &mut rng, &e, false);
+            }
+        }
     }
     for k in 0..n {
         let mut e = gen_event(&mut rng, k);
